@@ -219,7 +219,33 @@ func orderPreservingMap(v *FnView, param string) string {
 					}
 				}
 				if !ok && !dependsOnDeep(els[0], elem, 6) {
-					return "appends a value that is not derived from the current element"
+					// an out-parameter filled by a call that is handed (part of) the element
+					filled := false
+					if ld, isLoad := els[0].(*ssa.UnOp); isLoad {
+						if al, isAl := ld.X.(*ssa.Alloc); isAl && al.Referrers() != nil {
+							var users []ssa.Instruction
+							for _, r := range *al.Referrers() {
+								users = append(users, r)
+								if mi, isMI := r.(*ssa.MakeInterface); isMI && mi.Referrers() != nil {
+									users = append(users, *mi.Referrers()...)
+								}
+							}
+							for _, r := range users {
+								callr, isCall := r.(*ssa.Call)
+								if !isCall {
+									continue
+								}
+								for _, a := range callr.Common().Args {
+									if a != ssa.Value(al) && dependsOnDeep(a, elem, 6) {
+										filled = true
+									}
+								}
+							}
+						}
+					}
+					if !filled {
+						return "appends a value that is not derived from the current element"
+					}
 				}
 			}
 			if !elem.Block().Dominates(call.Block()) {
